@@ -10,7 +10,7 @@ TYPES = {"BranchTypeError"}
 
 
 def run(ctx: Ctx) -> int:
-    n, depth, nfixed = ctx.pick(70, 1200), ctx.pick(2, 3), 20
+    n, depth, nfixed = ctx.pick(70, 1200), ctx.pick(2, 3), len(__import__("lib.e8", fromlist=["FIXED"]).FIXED)
     B = 6
     base = {"VERIF_C08_N": n, "VERIF_C08_SEED": ctx.seed, "VERIF_C08_DEPTH": depth}
     jobs = []
